@@ -28,8 +28,10 @@ import (
 	"runtime"
 	"runtime/pprof"
 	"sort"
+	"strings"
 	"sync"
 	"sync/atomic"
+	"time"
 
 	"go.uber.org/zap"
 
@@ -40,6 +42,7 @@ import (
 
 // replayArtefact is what a violation stores and --replay reads.
 type replayArtefact struct {
+	Plan string   `json:"plan,omitempty"` // "" general alphabet, "ttlmc" lock-field plan
 	RPC  bool     `json:"rpc"`
 	Keys int      `json:"keys"`
 	Txns int      `json:"txns"`
@@ -51,6 +54,13 @@ type replayArtefact struct {
 type node struct {
 	path  []Op
 	model *refmvcc.Store
+	// dev: the mock's stored entries where they differ from the reference state
+	// although every answer so far agreed ("" = equal). Such a state is a state
+	// of its own: it is part of the deduplication key and is explored like any
+	// other, so that a consequence of the difference (a later answer or read)
+	// is found within the depth bound. devKey names the step that caused it.
+	dev    string
+	devKey string
 }
 
 type engine struct {
@@ -66,8 +76,9 @@ type engine struct {
 	visited sync.Map // [32]byte -> struct{}
 
 	states, transitions, validated, evaluations, nontrivial, probes atomic.Int64
-	undefinedSkips, pruned                                          atomic.Int64
+	undefinedSkips, pruned, deviating                               atomic.Int64
 
+	fixpoint   bool // the last explored level produced no new state: the whole reachable space of the alphabet is covered
 	mu         sync.Mutex
 	undefined  sync.Map          // string -> *atomic.Int64
 	outcomes   sync.Map          // string -> *atomic.Int64
@@ -146,16 +157,22 @@ func seqText(path []Op) []string {
 }
 
 func (e *engine) artefact(path []Op, note string) replayArtefact {
-	return replayArtefact{RPC: e.useRPC, Keys: e.nKeys, Txns: e.nTxns, Ops: append([]Op(nil), path...), Note: note, Text: seqText(path)}
+	return replayArtefact{Plan: e.cfg.plan, RPC: e.useRPC, Keys: e.nKeys, Txns: e.nTxns, Ops: append([]Op(nil), path...), Note: note, Text: seqText(path)}
 }
 
 // step runs one command on the mock in state pre and checks answer, stored
 // state and state laws. It returns the findings and the mock's dump.
 func (e *engine) step(m *mock, pre, post *refmvcc.Store, o Op, want Result) (fs []finding, diffDump bool) {
+	fs, diffDump, _ = e.stepD(m, pre, post, o, want)
+	return fs, diffDump
+}
+
+// stepD also returns the mock's stored entries after the step ("" if they could not be read).
+func (e *engine) stepD(m *mock, pre, post *refmvcc.Store, o Op, want Result) (fs []finding, diffDump bool, dump string) {
 	got, pan := guardApply(m, o)
 	e.transitions.Add(1)
 	if pan != "" {
-		return []finding{{key: variant(o) + ":" + opSituation(pre, o, 0) + ":panic", what: fmt.Sprintf("%s panicked: %s", o, pan), violation: true}}, true
+		return []finding{{key: variant(o) + ":" + opSituation(pre, o, 0) + ":panic", what: fmt.Sprintf("%s panicked: %s", o, pan), violation: true}}, true, ""
 	}
 	e.validated.Add(1)
 	resultOK := true
@@ -165,7 +182,7 @@ func (e *engine) step(m *mock, pre, post *refmvcc.Store, o Op, want Result) (fs 
 	}
 	entries, err := m.db.VerifDump()
 	if err != nil {
-		return append(fs, finding{key: "dump:error", what: err.Error(), violation: true}), true
+		return append(fs, finding{key: "dump:error", what: err.Error(), violation: true}), true, ""
 	}
 	dump, bad := renderMock(entries)
 	for _, b := range bad {
@@ -210,8 +227,33 @@ func (e *engine) step(m *mock, pre, post *refmvcc.Store, o Op, want Result) (fs 
 			fs = append(fs, finding{key: f.key + ":after:" + variant(o), what: fmt.Sprintf("after %s: %s", o, f.what), violation: true})
 		}
 	}
-	bump(&e.outcomes, variant(o)+" "+opSituation(pre, o, 0)+" -> "+classes(got.Errs))
-	return fs, diffDump
+	if o.Kind == "commit" && len(want.Errs) == 1 && want.Errs[0].Class == refmvcc.CommitTsExpired && len(got.Errs) == 1 && got.Errs[0].IsOK() {
+		// A commit below the lock's min-commit-ts was accepted. The reads are judged too
+		// ("a read at a timestamp sees the newest commit at or below it"): whoever pushed
+		// the min-commit-ts read at a timestamp at or above this commit ts and saw nothing.
+		var fails []obsFail
+		func() {
+			defer func() { recover() }()
+			fails, _ = m.observe(e.cfg, post)
+		}()
+		seenKind := map[string]bool{}
+		for _, f := range fails {
+			kind := strings.SplitN(f.key, ":", 2)[0] // one class per kind of read (get, get-rc, batchget, scan ...): the first failing one
+			if seenKind[kind] {
+				continue
+			}
+			seenKind[kind] = true
+			fs = append(fs, finding{key: kind + ":after:commit-below-min-commit", what: fmt.Sprintf("after %s (accepted below the min-commit-ts %s): %s", o, u(want.Errs[0].MinCommitTS), f.what), violation: true})
+		}
+	}
+	outcome := variant(o) + " " + opSituation(pre, o, 0) + " -> " + classes(got.Errs)
+	if o.Kind == "status" && len(got.Extra) == 1 {
+		if i := strings.Index(got.Extra[0], "action="); i >= 0 {
+			outcome += " " + got.Extra[0][i:]
+		}
+	}
+	bump(&e.outcomes, outcome)
+	return fs, diffDump, dump
 }
 
 func bump(m *sync.Map, k string) {
@@ -333,6 +375,10 @@ func touchesData(s *refmvcc.Store, o Op) bool {
 func (w *worker) expand(n *node, last bool, next *[]*node) {
 	e := w.e
 	preState := n.model.State()
+	preImpl := n.dev // the mock's stored entries in state n
+	if preImpl == "" {
+		preImpl = renderModel(n.model)
+	}
 	var m *mock    // instance in state n, nil if it has to be (re)built
 	var extra []Op // no-change commands applied to m since it was built
 	for _, o := range e.ops {
@@ -350,15 +396,18 @@ func (w *worker) expand(n *node, last bool, next *[]*node) {
 			e.nontrivial.Add(1)
 		}
 		repeat := tolerate(n.path, n.model, o, &want)
-		changed := post.State() != preState
 		if m == nil {
 			m = w.build(n.path)
 			extra = nil
 		}
-		fs, diff := e.step(m, n.model, post, o, want)
+		fs, diff, dump := e.stepD(m, n.model, post, o, want)
 		if repeat {
 			tagRepeat(fs)
 		}
+		// changed: on either side (the mock may change its entries where the reference changes nothing)
+		changed := post.State() != preState || (dump != "" && dump != preImpl)
+		devKey := n.devKey
+		fs = e.fromDeviating(n, fs, &devKey)
 		path := append(append([]Op(nil), n.path...), o)
 		if len(fs) > 0 {
 			if e.allConfirmed(fs) {
@@ -374,6 +423,8 @@ func (w *worker) expand(n *node, last bool, next *[]*node) {
 				if repeat {
 					tagRepeat(fs2)
 				}
+				var dk string
+				fs2 = e.fromDeviating(n, fs2, &dk)
 				if sameKeys(fs, fs2) {
 					e.markConfirmed(fs2)
 					e.report(fs2, path, "")
@@ -411,21 +462,55 @@ func (w *worker) expand(n *node, last bool, next *[]*node) {
 			m = nil
 			continue
 		}
-		sum := sha256.Sum256([]byte(post.State()))
+		// Deduplication key: the reference state, plus the mock's entries where they differ
+		// from it (two sequences with equal answers and equal reference state have equal
+		// futures only if the mock's entries are equal too).
+		succ := &node{path: path, model: post}
+		if diff {
+			succ.dev, succ.devKey = dump, devKey
+		}
+		sum := sha256.Sum256([]byte(post.State() + "\x00" + succ.dev))
 		if _, seen := e.visited.LoadOrStore(sum, struct{}{}); !seen {
 			e.states.Add(1)
+			if diff {
+				e.deviating.Add(1)
+			}
 			e.observeState(m, post, path)
 			if last {
-				if !diff && !hasViolation(fs) {
-					w.probe(m, post, path)
-				}
+				w.probe(m, succ)
 			} else {
-				*next = append(*next, &node{path: path, model: post})
+				*next = append(*next, succ)
 			}
 			e.samples.Add(func() any { return map[string]any{"sequence": seqText(path), "state": renderModel(post)} })
 		}
 		m = nil
 	}
+}
+
+// fromDeviating post-processes the findings of a step taken from state n. In a
+// state whose stored entries already differ from the reference the difference
+// persists: it is not listed again, and a violation found from there is a
+// consequence of it and says so in its key. For a step that starts a
+// difference, *devKey receives the key of that difference.
+func (e *engine) fromDeviating(n *node, fs []finding, devKey *string) []finding {
+	if n.dev == "" {
+		for _, f := range fs {
+			if !f.violation && *devKey == "" {
+				*devKey = f.key
+			}
+		}
+		return fs
+	}
+	out := fs[:0]
+	for _, f := range fs {
+		if !f.violation {
+			continue
+		}
+		f.key += ":after-" + n.devKey
+		f.what += "   (the stored entries differ from the reference since the step " + n.devKey + ")"
+		out = append(out, f)
+	}
+	return out
 }
 
 func (e *engine) allConfirmed(fs []finding) bool {
@@ -480,8 +565,9 @@ func (e *engine) observeState(m *mock, s *refmvcc.Store, path []Op) {
 // probe applies, on the instance in the frontier state s, every command that
 // the reference answers without changing state (errors, idempotent repeats,
 // late prewrites after commit/rollback ...): one more level for those.
-func (w *worker) probe(m *mock, s *refmvcc.Store, path []Op) {
+func (w *worker) probe(m *mock, n *node) {
 	e := w.e
+	s, path := n.model, n.path
 	st := s.State()
 	for _, o := range e.ops {
 		if e.useRPC && !rpcSupported(o) {
@@ -494,9 +580,21 @@ func (w *worker) probe(m *mock, s *refmvcc.Store, path []Op) {
 		}
 		e.probes.Add(1)
 		repeat := tolerate(path, s, o, &want)
+		if n.dev != "" {
+			m = w.build(path) // deviating state: every probe on a rebuilt instance
+		}
 		fs, diff := e.step(m, s, post, o, want)
 		if repeat {
 			tagRepeat(fs)
+		}
+		var dk string
+		fs = e.fromDeviating(n, fs, &dk)
+		if n.dev != "" {
+			if len(fs) > 0 {
+				e.markConfirmed(fs)
+				e.report(fs, append(append([]Op(nil), path...), o), "")
+			}
+			continue
 		}
 		if len(fs) > 0 && e.allConfirmed(fs) {
 			e.report(fs, append(append([]Op(nil), path...), o), "")
@@ -536,7 +634,7 @@ func (e *engine) bfs(roots [][]Op) {
 		for _, o := range r {
 			applyModel(s, o)
 		}
-		sum := sha256.Sum256([]byte(s.State()))
+		sum := sha256.Sum256([]byte(s.State() + "\x00"))
 		if _, seen := e.visited.LoadOrStore(sum, struct{}{}); seen {
 			continue
 		}
@@ -591,6 +689,9 @@ func (e *engine) bfs(roots [][]Op) {
 		}
 		e.levelCount = append(e.levelCount, int(e.states.Load())-statesBefore)
 		frontier = nf
+		if int(e.states.Load()) == statesBefore && !stop.Load() {
+			e.fixpoint = true
+		}
 	}
 }
 
@@ -606,8 +707,12 @@ func seedOps(keys ...string) []Op {
 	return out
 }
 
-func newEngine(run *ev.Run, nKeys, nTxns, depth int, rpc bool) *engine {
-	e := &engine{run: run, nKeys: nKeys, nTxns: nTxns, cfg: makeConfig(nKeys, nTxns), useRPC: rpc, maxDepth: depth,
+func newEngine(run *ev.Run, plan string, nKeys, nTxns, depth int, rpc bool) *engine {
+	cfg := makeConfig(nKeys, nTxns)
+	if plan == planTTLMC {
+		cfg = ttlmcConfig(nKeys, nTxns)
+	}
+	e := &engine{run: run, nKeys: nKeys, nTxns: nTxns, cfg: cfg, useRPC: rpc, maxDepth: depth,
 		stateDiffs: map[string]string{}, conseq: map[string]string{}, samples: ev.NewSamples(6, run.Seed)}
 	e.ops = e.cfg.alphabet()
 	// The text is silent on the for-update-ts stored by a force-lock over a newer
@@ -639,21 +744,33 @@ func main() {
 	}
 	type pass struct {
 		name          string
+		plan          string
 		keys, txns, d int
 		rpc           bool
 		roots         [][]Op
 	}
 	var passes []pass
+	empty := [][]Op{nil}
 	if run.Quick() {
 		passes = []pass{
-			{"direct", 2, 2, 3, false, [][]Op{nil, seedOps("a")}},
-			{"rpc", 2, 2, 2, true, [][]Op{nil, seedOps("a")}},
+			{"direct", "", 2, 2, 3, false, [][]Op{nil, seedOps("a")}},
+			{"rpc", "", 2, 2, 2, true, [][]Op{nil, seedOps("a")}},
+			// plan ttlmc (ttlmc.go): the lock's ttl and min-commit-ts as state; few keys / transactions, deeper
+			{"ttlmc-1key", planTTLMC, 1, 1, 6, false, empty},
+			{"ttlmc-1key-rpc", planTTLMC, 1, 1, 5, true, empty},
+			{"ttlmc-2txns", planTTLMC, 1, 2, 5, false, empty},
+			{"ttlmc-2keys", planTTLMC, 2, 1, 4, false, empty},
 		}
 	} else {
 		passes = []pass{
-			{"direct", 2, 2, 4, false, [][]Op{nil, seedOps("a")}},
-			{"direct-wide", 3, 3, 3, false, [][]Op{nil, seedOps("a"), seedOps("a", "b")}},
-			{"rpc", 2, 2, 3, true, [][]Op{nil, seedOps("a")}},
+			{"direct", "", 2, 2, 4, false, [][]Op{nil, seedOps("a")}},
+			{"direct-wide", "", 3, 3, 3, false, [][]Op{nil, seedOps("a"), seedOps("a", "b")}},
+			{"rpc", "", 2, 2, 3, true, [][]Op{nil, seedOps("a")}},
+			{"ttlmc-1key", planTTLMC, 1, 1, 8, false, empty},
+			{"ttlmc-1key-rpc", planTTLMC, 1, 1, 7, true, empty},
+			{"ttlmc-2txns", planTTLMC, 1, 2, 7, false, empty},
+			{"ttlmc-2keys", planTTLMC, 2, 1, 6, false, empty},
+			{"ttlmc-2keys-2txns", planTTLMC, 2, 2, 4, false, empty},
 		}
 	}
 	if only := os.Getenv("VERIF_C12_PASSES"); only != "" { // developer aid: run a subset of the passes (evidence then says so)
@@ -671,15 +788,19 @@ func main() {
 	cov := ev.Coverage{}
 	var tot struct{ states, transitions, validated, evaluations, nontrivial, probes, undef int64 }
 	outcomes := map[string]bool{}
+	lockField := map[string]int{} // outcomes in which the lock's ttl / min-commit-ts decides
 	undefined := map[string]int{}
 	stateDiffs := map[string]string{}
 	conseq := map[string]string{}
-	var pruned int64
+	var pruned, deviating int64
 	var samples []any
 	perPass := []map[string]any{}
 	for _, p := range passes {
-		e := newEngine(run, p.keys, p.txns, p.d, p.rpc)
+		e := newEngine(run, p.plan, p.keys, p.txns, p.d, p.rpc)
+		t0 := time.Now()
 		e.bfs(p.roots)
+		passWall := time.Since(t0).Seconds()
+		deviating += e.deviating.Load()
 		tot.states += e.states.Load()
 		tot.transitions += e.transitions.Load()
 		tot.validated += e.validated.Load()
@@ -687,8 +808,15 @@ func main() {
 		tot.nontrivial += e.nontrivial.Load()
 		tot.probes += e.probes.Load()
 		tot.undef += e.undefinedSkips.Load()
-		for k := range counts(&e.outcomes) {
+		for k, v := range counts(&e.outcomes) {
 			outcomes[k] = true
+			if p.plan != planTTLMC {
+				continue
+			}
+			if strings.Contains(k, "+req-ttl-below-lock") || strings.Contains(k, "+req-min-commit-below-lock") || strings.Contains(k, "+below-min-commit") ||
+				strings.Contains(k, "+advise-below-ttl") || strings.Contains(k, "CommitTsExpired") || strings.Contains(k, "action=MinCommitTSPushed") || strings.Contains(k, "action=TTLExpire") {
+				lockField[k] += v
+			}
 		}
 		for k, v := range counts(&e.undefined) {
 			undefined[k] += v
@@ -705,7 +833,11 @@ func main() {
 		}
 		pruned += e.pruned.Load()
 		samples = append(samples, e.samples.List()...)
-		perPass = append(perPass, map[string]any{"pass": p.name, "keys": p.keys, "txns": p.txns, "depth_beyond_roots": p.d, "roots": len(p.roots),
+		planName := "general"
+		if p.plan != "" {
+			planName = p.plan
+		}
+		perPass = append(perPass, map[string]any{"pass": p.name, "plan": planName, "fixpoint_reached": e.fixpoint, "wall_s_informational": float64(int(passWall*10)) / 10, "keys": p.keys, "txns": p.txns, "depth_beyond_roots": p.d, "roots": len(p.roots),
 			"alphabet": len(e.ops), "rpc": p.rpc, "states": e.states.Load(), "transitions": e.transitions.Load(), "new_states_per_level": e.levelCount,
 			"read_timestamps": len(e.cfg.readTS)})
 	}
@@ -716,6 +848,7 @@ func main() {
 	cov["distinct_nontrivial"] = tot.nontrivial
 	cov["frontier_probe_steps"] = tot.probes
 	cov["distinct_outcomes"] = len(outcomes)
+	cov["lock_field_outcomes"] = lockField
 	cov["steps_outside_property_text_skipped"] = tot.undef
 	cov["outside_property_text"] = undefined
 	var sd []string
@@ -730,12 +863,18 @@ func main() {
 	cov["stored_state_differences_without_stated_consequence"] = sdl
 	cov["visible_consequence_of_violation"] = conseq
 	cov["transitions_not_followed_after_violation"] = pruned
+	cov["states_with_stored_entries_differing_from_reference"] = deviating
 	cov["bounds"] = perPass
 	cov["rule"] = "breadth-first over command sequences from the root states (empty store; store with key a committed by an older transaction), " +
 		"every command of the alphabet from every distinct reference-model state up to the depth bound; a step is one command executed on the real MVCCLevelDB " +
 		"(pass rpc: through RPCClient.SendRequest and the kvHandler functions) and compared with the reference (answer class + payload + complete stored entries); " +
 		"evaluations = reads of the observation sets; non-trivial step = the command addresses a key that already holds a lock or a record (or a range command on a non-empty store); " +
-		"states at the depth bound are additionally probed with every command the reference answers without a state change (frontier_probe_steps)"
+		"states at the depth bound are additionally probed with every command the reference answers without a state change (frontier_probe_steps); " +
+		"a state = canonical reference state (locks with ttl, for-update-ts, min-commit-ts; records; finished sets) plus the mock's stored entries where they differ from it; " +
+		"plan general: the full command set with one ttl and at most one min-commit-ts per request, 2-3 keys and transactions; " +
+		"plan ttlmc (passes ttlmc-*): the life cycle of a lock on 1-2 keys by 1-2 transactions, deeper: pessimistic lock and prewrite (over the own pessimistic lock, optimistic, repeated) with every " +
+		"ttl in {2,5,9} x min-commit-ts in {0,11,16}, heartbeat advising {1,5,9,100}, check-txn-status with caller in {5,13,21,max} x current in {11,14,17,30} (pushes to caller+1 or current, or not; expired or not depending on the ttl held), " +
+		"commit at {11,12,13+1,15,16,19,21+1,31} (below / at / above every value a lock can hold), cleanup at 3 current timestamps, rollback, pessimistic rollback, resolve; fixpoint_reached = no new state at the last level"
 	cov["samples"] = samples
 	if os.Getenv("VERIF_C12_PROFILE") != "" {
 		pprof.StopCPUProfile()
@@ -772,7 +911,7 @@ func doReplay(run *ev.Run, file string) {
 	if a.Keys == 0 {
 		a.Keys, a.Txns = 2, 2
 	}
-	e := newEngine(run, a.Keys, a.Txns, 0, a.RPC)
+	e := newEngine(run, a.Plan, a.Keys, a.Txns, 0, a.RPC)
 	m := newMock(a.RPC)
 	defer m.close()
 	s := e.newModel()
